@@ -27,6 +27,8 @@ fn main() {
         ("C19", Some(r)) => checks::c19::replay(&ctx, &r["case"]),
         ("C16", None) => checks::c16::run(&ctx),
         ("C16", Some(r)) => checks::c16::replay(&ctx, &r["case"]),
+        ("C11", None) => checks::c11::run(&ctx),
+        ("C11", Some(r)) => checks::c11::replay(&ctx, &r["case"]),
         ("C05", None) => checks::cfgstate::run_c05(&ctx),
         ("C06", None) => checks::cfgstate::run_c06(&ctx),
         ("C07", None) => checks::cfgstate::run_c07a(&ctx),
